@@ -71,6 +71,8 @@ def check(prog, ctx):
     ctx.rule('C06.e', 'factorial memo table is history free: written only by its {1} initialiser and push_back(back()*size()); '
              'Binomial_Coefficient equals round(n!/(k!(n-k)!)) resp. the lnGamma form', 5)
     ctx.rule('C06.f', 'Gamma = exp(GammaLn); GammaLn is the 14-term Lanczos form (g=671/128) with the published coefficients', 3)
+    ctx.rule('C06.h', 'Inv_GammaP: one iteration is a Halley step x -= u/(1-min(1,u((a-1)/x-1))/2) with u=(P(x,a)-p)/P\'(x,a), and the '
+             'iteration stops on a relative step |t| < EPS*x with EPS <= 1e-7', 2)
     gq = prog.fn(L + 'GammaQ')
     # ---- C06.b branch selection
     sx = Symx(prog, gq)
@@ -157,6 +159,7 @@ def check(prog, ctx):
 
     continued_fraction(prog, ctx, cf)
     series(prog, ctx, ser, cf)
+    halley(prog, ctx)
     memo(prog, ctx)
     lanczos(prog, ctx)
 
@@ -468,3 +471,94 @@ def lanczos(prog, ctx):
     ctx.decide(R, 'GammaLn:form', fn, okloop and ok2,
                'tmp=(x+1/2)log(x+671/128)-(x+671/128); sum=c0+sum_{j<14} cof[j]/(x+1+j); returns tmp+log(sqrt(2pi) sum/x)',
                'Lanczos form not recognised (loop ok=%s, returns %s)' % (okloop, rv), form=str(rv))
+
+
+def halley(prog, ctx):
+    R = 'C06.h'
+    fn = prog.fn(L + 'Inv_GammaP')
+    loops = [s for s in fn.body['body'] if s['k'] == 'For']
+    if len(loops) != 1:
+        ctx.undecided(R, 'Inv_GammaP:loop', fn, 'expected one iteration loop')
+        return
+    loop = loops[0]
+    sx = Symx(prog, fn)
+    p, a = sx.symbol(fn.params[0]['name'], 'double'), sx.symbol(fn.params[1]['name'], 'double')
+    states = [State({})]
+    for s in fn.body['body']:
+        if s is loop:
+            break
+        states, done = sx.exec(s, states)
+    if not states:
+        raise Undecided('no path reaches the Halley loop')
+    results = []
+    for st in states[:4]:
+        entry, cond, live, done, n0 = sx.loop_step(loop, st)
+        xs = [(k, v) for k, v in entry.items() if isinstance(v, Symbol) and str(v).startswith('x@')]
+        if len(xs) != 1:
+            raise Undecided('iterate not identified')
+        kx, x = xs[0]
+        big = None
+        for c_ in st.conds:
+            if c_ == sp.Gt(a, 1):
+                big = True
+            if c_ == sp.Le(a, 1):
+                big = False
+        brk = [o for o in done if o.kind == 'break']
+        if not brk:
+            ctx.violated(R, 'Inv_GammaP:stopping', fn, 'the iteration has no convergence exit', line=loop['l'])
+            return
+        for o in brk:
+            conds = o.state.conds[n0:]
+            last = conds[-1]
+            xo = o.state.env.get(kx)
+            ok = False
+            detail = str(last)[:200]
+            if isinstance(last, (sp.Lt, sp.Le)):
+                lhs, rhs = last.lhs, last.rhs
+                ratio = sp.simplify(rhs / xo)
+                if ratio.free_symbols and all(str(s_) == 'EPS' or 'EPS' in str(s_) for s_ in ratio.free_symbols):
+                    pass
+                rel = not ratio.has(x) and not ratio.has(p) and not ratio.has(a)
+                eps_val = None
+                if rel:
+                    try:
+                        eps_val = float(ratio)
+                    except TypeError:
+                        eps_val = None
+                ok = bool(rel and eps_val is not None and 0 < eps_val <= 1e-7 and lhs.has(sp.Abs))
+                detail = '|step| < %s * x' % ratio if rel else 'threshold %s is not proportional to the iterate' % rhs
+            results.append((ok, detail, o))
+    okall = all(r[0] for r in results)
+    ctx.decide(R, 'Inv_GammaP:stopping', fn, okall, 'stops when |step| < EPS*x (relative), EPS <= 1e-7 (%d exits)' % len(results),
+               'the convergence test is not a relative step test: %s' % sorted(set(r[1] for r in results if not r[0])),
+               witness={'reproducer': 'a=0.06, p=0.316: |P(x,a)-p| = 8.7e-4 after the first step'} if not okall else None, line=loop['l'])
+    # Halley step on the un-clamped path
+    st = states[0]
+    entry, cond, live, done, n0 = sx.loop_step(loop, st)
+    kx, x = [(k, v) for k, v in entry.items() if isinstance(v, Symbol) and str(v).startswith('x@')][0]
+    P = Function(L + 'GammaP', real=True)
+    dP = sp.exp(-x + (a - 1) * sp.log(x) - Function(L + 'GammaLn', real=True)(a))
+    u = (P(x, a) - p) / dP
+    want = u / (1 - sp.Min(1, u * ((a - 1) / x - 1)) / 2)
+    # substitute the named pre-loop constants
+    okstep = False
+    got = None
+    for pth in live:
+        xo = pth.env.get(kx)
+        step = sp.simplify(x - xo)
+        if step.has(sp.Rational(1, 2) * x) or sp.simplify(xo - x / 2) == 0:
+            continue
+        got = step
+        m1 = [t for t in step.atoms(sp.Min)]
+        m2 = [t for t in want.atoms(sp.Min)]
+        if len(m1) == 1 and len(m2) == 1:
+            a1 = [z for z in m1[0].args if z != 1]
+            a2 = [z for z in m2[0].args if z != 1]
+            MM = Symbol('MM', real=True)
+            if len(a1) == 1 and len(a2) == 1:
+                d_arg = sp.simplify(sp.expand_log(sp.simplify(a1[0] - a2[0]), force=True))
+                d_out = sp.simplify(sp.expand_log(sp.simplify(step.subs(m1[0], MM) - want.subs(m2[0], MM)), force=True))
+                if d_arg == 0 and d_out == 0:
+                    okstep = True
+    ctx.decide(R, 'Inv_GammaP:halley-step', fn, okstep, 'x -= u/(1-min(1,u((a-1)/x-1))/2), u=(P(x,a)-p)/(x^(a-1)e^-x/Gamma(a))',
+               'iteration step is not the Halley step: %s' % str(got)[:300], line=loop['l'], form=str(got)[:400])
